@@ -38,6 +38,10 @@ def impl(op, a):
     return _val(guarded(f))
 
 
+_impl_plain = impl
+impl = lib.with_bytearray_variant(_impl_plain, ['find_addresses', 'destination_from_bytes', 'source_from_bytes'])
+
+
 def addr_ok(l, p, server):
     if p is None:
         return 0 <= l <= 127
@@ -132,11 +136,32 @@ def run(ctx):
             tail = bytes(r.getrandbits(8) for _ in range(r.choice([0, 1, 3, 6, 12])))
             fcases.append(b"\x7e\xa0\x10" + ab(c, None, False) + ab(l, p, True) + tail)
             fcases.append(b"\x7e\xa0\x10" + ab(l, p, True) + ab(c, None, False) + tail)
+    # neighbours decoded one after the other: frames that agree in everything but the last address byte (a result remembered
+    # for "the same header" must not be handed out for a different station)
+    neighbours = []
+    for (l, p) in [(1, 0x1234), (300, 16383), (128, 128), (16383, 1), (0, 200)] + [(r.randrange(128, 16384), r.randrange(1, 16383)) for _ in range(ctx.scale(40, 400))]:
+        tail = bytes(r.getrandbits(8) for _ in range(6))
+        c = r.choice(clients)
+        g1 = [b"\x7e\xa0\x10" + ab(c, None, False) + ab(l, q, True) + tail for q in (p, p ^ 1, p, p + 1 if p < 16383 else p - 1)]
+        g2 = [b"\x7e\xa0\x10" + ab(l, p, True) + ab(c2, None, False) + tail for c2 in (c, c ^ 1, c, (c + 1) % 128)]
+        fcases += g1 + g2
+        neighbours += list(zip(g1, g1[1:])) + list(zip(g2, g2[1:]))
     fcases += [bytes(r.getrandbits(8) for _ in range(n)) for n in range(0, 16) for _ in range(ctx.scale(40, 400))]
     fcases += [bytes([0x7e, 0xa0, 7] + [r.choice([0, 2, 4, 0xfe, 1, 3, 0xff]) for _ in range(n)]) for n in range(0, 10) for _ in range(ctx.scale(60, 600))]
     ctx.corr([("find_addresses", f) for f in fcases], impl, "find_addresses")
-    ctx.corr([(op, [f, sv]) for f in fcases[::3] for op in ("destination_from_bytes", "source_from_bytes") for sv in (True, False)],
+    ctx.corr([(op, [f, sv]) for op in ("destination_from_bytes", "source_from_bytes") for sv in (True, False) for f in fcases[::3] + fcases[1::3][:3000]],
              impl, "from_bytes")
+    # ---- search: the answer for a frame does not depend on the frame decoded before it
+    unrelated = b"\x7e\xa0\x07\x03\x21\x93\x0f\x01\x7e"
+    for first, frame in neighbours:
+        ctx.tried("neighbour_frames", key=(first, frame))
+        _impl_plain("find_addresses", unrelated)
+        alone = _impl_plain("find_addresses", frame)
+        _impl_plain("find_addresses", unrelated)
+        _impl_plain("find_addresses", first)
+        after = _impl_plain("find_addresses", frame)
+        if lib.v_text(lib.canon(alone)) != lib.v_text(lib.canon(after)):
+            ctx.fail("address_depends_on_previous_frame", {"first": first.hex(), "frame": frame.hex()}, lib.v_text(alone)[:200], lib.v_text(after)[:200])
     # ---- search: real frames
     cl = [(c, None, False) for c in (0, 1, 16, 127)]
     sv = [(l, None, True) for l in list(range(0, 128, 9)) + [127]] + [(l, p, True) for l in GRID[::2] for p in GRID[::2]]
@@ -152,6 +177,15 @@ def run(ctx):
 
 
 def replay(ctx, rp):
+    if "first" in rp["case"]:
+        first, frame = bytes.fromhex(rp["case"]["first"]), bytes.fromhex(rp["case"]["frame"])
+        _impl_plain("find_addresses", b"\x7e\xa0\x07\x03\x21\x93\x0f\x01\x7e")
+        alone = _impl_plain("find_addresses", frame)
+        _impl_plain("find_addresses", b"\x7e\xa0\x07\x03\x21\x93\x0f\x01\x7e")
+        _impl_plain("find_addresses", first)
+        after = _impl_plain("find_addresses", frame)
+        print("alone:", lib.v_text(alone)[:200], "\nafter the first frame:", lib.v_text(after)[:200])
+        return lib.v_text(lib.canon(alone)) != lib.v_text(lib.canon(after))
     d, s = [tuple(x) for x in rp["case"]["addr"]]
     spec = lib.run_model([("spec_addr", list(d)), ("spec_addr", list(s))])
     ctx.findings = []
